@@ -282,7 +282,8 @@ def rule_decoders(model):
     for mod, name in (('html_quote', 'html_quote'),
                       ('_DocumentTemplate', 'join_unicode')):
         fi = model.func(mod, name)
-        decs = [n for n in own_nodes(fi.node) if isinstance(n, ast.Call)
+        decs = [n for n in model.closure_nodes(fi)
+                if isinstance(n, ast.Call)
                 and isinstance(n.func, ast.Attribute)
                 and n.func.attr == 'decode']
         if not decs:
